@@ -620,3 +620,320 @@ def c05(tier, seed):
     out.coverage["exhaustive"] = tier == "thorough"
     out.assumptions = ["a fault is a change of a *listed* manifest's bytes, its removal, or removal of a chain file; edits of the chain file's own content are outside the statement", "SHA-512 / C4 collision freedom"] + COMMON_ASSUMPTIONS[1:3]
     return out
+
+
+def xml_campaign(out, pid, tier, seed, pclauses):
+    """document shapes enumerated by TLC from MhlXml, driven through the real writer and both readers"""
+    import random
+    import shutil
+    from multiprocessing import Pool
+    from . import tlc, validate, xmlcheck as X
+
+    run_static_model(out, "MC_Xml", cfg="MC_XmlSmall.cfg" if tier == "quick" else "MC_Xml.cfg")
+    wd = tlc.workdir("xmlexp")
+    try:
+        tlc.prepare(wd)
+        cfg = "MC_Xml_export.cfg"
+        if tier == "quick":
+            with open(os.path.join(wd, "MC_Xml_export_small.cfg"), "w") as fh:
+                fh.write(open(os.path.join(wd, cfg)).read().replace("MaxRecs = 2", "MaxRecs = 1"))
+            cfg = "MC_Xml_export_small.cfg"
+        r = tlc.run_tlc(wd, "MC_Xml", cfg, workers=8)
+        docs = list(tlc.printed(r.out, "BEH"))
+    finally:
+        shutil.rmtree(wd, ignore_errors=True)
+    out.coverage["document_shapes_from_model"] = len(docs)
+    rnd = random.Random(seed * 101 + 3)
+    rnd.shuffle(docs)
+    docs = docs[: (700 if tier == "quick" else 12000)]
+    # negative controls for the schema automaton: shapes the writer can emit but the schema rejects
+    neg = [{"authors": 0, "location": False, "comment": False, "root": [], "npats": 1, "nrefs": 0, "negative": True,
+            "recs": [{"kind": "file", "fmts": [f, f], "prev": False}]} for f in ("md5", "c4", "xxh64")]
+    cases = [(k, d, seed) for k, d in enumerate(docs + neg)]
+    with Pool(16) as pool:
+        lines = pool.map(X.run_case, cases, chunksize=16)
+    verdicts, diags = validate.validate(lines, [], trace_module="MhlXmlTrace", tag=pid)
+    for d in diags[:3]:
+        out.machinery.append("trace validation stopped early: %s" % d["tail"][-1500:])
+    counts, drift, distinct = collections.Counter(), collections.Counter(), set()
+    known = [k_ for k_ in load_known() if k_["property"] == pid and k_.get("status") == "open"]
+    for ln in lines:
+        v = verdicts.get((ln["tid"], ln["i"]))
+        if not v:
+            continue
+        negative = ln["doc"].get("negative")
+        for c, val in v.items():
+            if c.startswith("M_") and val is False:
+                drift[c] += 1
+        if negative:
+            if v.get("M_valid") is False:
+                out.machinery.append("schema automaton and lxml disagree on a negative control: %s" % json.dumps(ln["doc"]))
+            continue
+        distinct.add(json.dumps(ln["doc"], sort_keys=True))
+        for c in pclauses:
+            counts[c] += 1
+            if v.get(c) is False:
+                fid = signatures.match(known, pid, c, ln, v)
+                if fid:
+                    n_, what = out.known.get(fid["id"], (0, fid["what"]))
+                    out.known[fid["id"]] = (n_ + 1, what)
+                    continue
+                out.violation(c, "doc=%s tool=%s indep=%s chain=%s xsd=%s exc=%s leftover=%s" % (json.dumps(ln["doc"]), ln.get("tool_bad"), ln.get("indep_bad"), ln.get("chain_bad"), ln.get("xsd_why"), ln.get("exc"), ln.get("leftover")),
+                              {"kind": "xml", "doc": ln["doc"], "k": int(ln["tid"].split("-")[1]), "seed": seed}, 0)
+    out.coverage["evaluations"] += len(verdicts)
+    out.coverage["traces_validated_against_impl"] += len(lines)
+    out.coverage["distinct_nontrivial"] += len(distinct)
+    out.coverage["samples"] += [{"doc": ln["doc"], "xsd_ok": ln["xsd_ok"]} for ln in lines[:2]]
+    out.coverage.setdefault("clause_evaluations", {}).update(dict(counts))
+    out.coverage.setdefault("drift", {}).update(dict(drift))
+
+
+XML_RULE = (
+    " Document campaign: every shape (authors 0..2, location / comment present or not, root hash format sequence, 1..2 patterns, 0..2 "
+    "records each file or directory with a format sequence out of 7 incl. all six formats, previous path or not, 0..2 references) is "
+    "enumerated by TLC from MhlXml.tla, where the emitted element tree is checked against the transcribed content models of ASCMHL.xsd / "
+    "ASCMHLDirectory.xsd and read back; a seeded sample of the shapes is concretised with Unicode / XML-special / emoji text, sizes 0 .. 2^40, "
+    "all actions, written by the real writers and read by the tool's reader and an independent ElementTree reader; lxml's verdict must equal "
+    "the automaton's. distinct_nontrivial counts distinct shapes driven through the code plus distinct behaviours of the history campaigns."
+)
+
+
+@register("C10")
+def c10(tier, seed):
+    out = Outcome("C10", tier, seed, "model_checking")
+    xml_campaign(out, "C10", tier, seed, ["P_C10_ToolReader", "P_C10_IndependentReader", "P_C10_Chain", "P_C10_Shape"])
+    plans = [dict(scope="nest", mode="simulate", num=40, depth=8, limit=300, mc=False, variants=[{"names": "xml", "augment": True}, {"names": "unicode", "augment": True}, {"names": "space"}]),
+             dict(scope="ren", mode="simulate", num=40, depth=8, limit=200, mc=False, variants=[{"names": "xml"}, {"names": "unicode"}])]
+    if tier == "thorough":
+        plans = [dict(p, num=400, limit=3000) for p in plans] + [dict(scope="dh6", mode="simulate", num=200, depth=9, limit=1500, mc=False, variants=[{"names": "mixed", "augment": True}])]
+    history_campaign(out, "C10", plans, pclauses=["P_C10_Reread"], antecedent=lambda ln, v: is_create(ln) and wrote_something(ln), seed=seed)
+    out.coverage["rule"] = HIST_RULE + XML_RULE
+    out.assumptions = COMMON_ASSUMPTIONS + ["text fields are drawn from 5 alphabets (ASCII, Latin-1/CJK, XML-special, emoji / zero-width, leading-trailing blanks) without control characters; leading / trailing white space of path components is stripped by the generator"]
+    return out
+
+
+@register("C11")
+def c11(tier, seed):
+    out = Outcome("C11", tier, seed, "model_checking")
+    xml_campaign(out, "C11", tier, seed, ["P_C11_Valid"])
+    aug = [{"names": "xml", "augment": True}, {"names": "plain", "augment": True}, {"names": "unicode", "augment": True}]
+    plans = [dict(scope="nest", mode="simulate", num=40, depth=8, limit=300, mc=False, variants=aug),
+             dict(scope="cmds", mode="simulate", num=40, depth=9, limit=250, mc=False, variants=aug),
+             dict(scope="ign", mode="simulate", num=30, depth=7, limit=200, mc=False, variants=aug)]
+    if tier == "thorough":
+        plans = [dict(p, num=400, limit=3000) for p in plans] + [dict(scope="ren", mode="simulate", num=200, depth=9, limit=1500, mc=False, variants=aug),
+                                                                 dict(scope="dh6", mode="simulate", num=200, depth=9, limit=1500, mc=False, variants=aug)]
+    history_campaign(out, "C11", plans, pclauses=["P_C11_Valid", "P_C18_Valid"], antecedent=lambda ln, v: wrote_something(ln), seed=seed)
+    out.coverage["rule"] = HIST_RULE + XML_RULE + " History campaigns run with option variations: creator options, -ii pattern files, repeated -h, files named several times with -sf."
+    out.assumptions = COMMON_ASSUMPTIONS + ["lxml's XSD validator is the oracle for validity; the transcribed automaton must agree with it on every case (incl. negative controls)"]
+    return out
+
+
+@register("C16")
+def c16(tier, seed):
+    """sizes and dates: MhlTime grid model + every grid cell run on the real code under TZ and a clock shim"""
+    import random
+    import shutil
+    from multiprocessing import Pool
+    from . import timecheck as T
+    from . import tlc, validate
+
+    out = Outcome("C16", tier, seed, "model_checking")
+    run_static_model(out, "MC_Time")
+    wd = tlc.workdir("time-neg")
+    try:
+        tlc.prepare(wd)
+        rn = tlc.run_tlc(wd, "MC_Time", "MC_TimeAtNow.cfg", workers=2)
+        out.coverage["negative_control_offset_at_now_violates"] = rn.violation or "NONE"
+        if not rn.violation:
+            out.machinery.append("negative control failed: the at_now formatter satisfies C16 in the model")
+    finally:
+        shutil.rmtree(wd, ignore_errors=True)
+    rnd = random.Random(seed)
+    cells, k = [], 0
+    file_times = [T.T_WINTER, T.T_SUMMER]
+    now_times = [T.N_WINTER, T.N_SUMMER]
+    if tier == "thorough":
+        # seeded instants, kept two days away from the switch months' edges by choosing Jan/Feb/Jun/Jul/Aug/Dec
+        for _ in range(6):
+            y, mo = rnd.choice([2019, 2020, 2022, 2024]), rnd.choice([1, 2, 6, 7, 8, 12])
+            file_times.append(int(__import__("datetime").datetime(y, mo, rnd.randint(1, 28), rnd.randint(0, 23), rnd.randint(0, 59), rnd.randint(0, 59), tzinfo=__import__("datetime").timezone.utc).timestamp()))
+    for z in T.ZONES:
+        for tf in file_times:
+            for tn in now_times:
+                for s in (T.SIZES if tier == "thorough" else [T.SIZES[k % 3], T.SIZES[(k + 1) % 3]]):
+                    cells.append((z, tf, tn, s, k))
+                    k += 1
+    # each cell sets the process-wide TZ: run cells in separate worker processes, one at a time per process
+    with Pool(8) as pool:
+        lines = pool.map(T.run_cell, cells, chunksize=4)
+    verdicts, diags = validate.validate(lines, [], trace_module="MhlTimeTrace", tag="C16")
+    for d in diags[:3]:
+        out.machinery.append("trace validation stopped early: %s" % d["tail"][-1500:])
+    counts, drift, nontrivial = collections.Counter(), collections.Counter(), set()
+    for ln in lines:
+        v = verdicts.get((ln["tid"], ln["i"]))
+        if not v:
+            continue
+        if v.get("A_otherside"):
+            nontrivial.add((ln["zone"], ln["t"], ln["now"], ln["size"]))
+        for c, val in v.items():
+            if c.startswith("M_") and val is False:
+                drift[c] += 1
+        for c in ("P_C16_Dates", "P_C16_Size", "P_C16_FileNameUTC"):
+            counts[c] += 1
+            if v.get(c) is False:
+                out.violation(c, "zone=%s file_time=%s now=%s size=%s written_size=%s dates=%s exc=%s" % (ln["zone"], ln["t"], ln["now"], ln["size"], ln["size_written"], json.dumps([(d["what"], d["text"]) for d in ln["dates"]]), ln["exc"]),
+                              {"kind": "time", "zone": ln["zone"], "t": ln["t"], "now": ln["now"], "size": ln["size"]}, 0)
+    out.coverage["evaluations"] = len(verdicts)
+    out.coverage["traces_validated_against_impl"] = len(lines)
+    out.coverage["distinct_nontrivial"] = len(nontrivial)
+    out.coverage["clause_evaluations"] = dict(counts)
+    out.coverage["drift"] = dict(drift)
+    out.coverage["samples"] = [{k_: ln[k_] for k_ in ("zone", "t", "now", "size", "dates")} for ln in lines[:2]]
+    out.coverage["rule"] = (
+        "grid = zones {UTC, Asia/Kolkata (+05:30), Etc/GMT+8 (-08:00), Europe/Berlin, America/New_York, Australia/Sydney, Pacific/Chatham} x "
+        "file modification time {winter, summer (+ seeded instants in the thorough tier)} x current time {winter, summer} x size {0, 1, 2^20+1}; each "
+        "cell runs the real create with TZ set, the file's mtime set by utime and the tool's clock injected by a harness-side shim; the written "
+        "lastmodificationdate, hashdate, creationdate and manifest file name are parsed independently and compared with zoneinfo (instant at second "
+        "precision, offset in force at that instant). Non-trivial = the offset at the file time differs from the offset at the current time."
+    )
+    out.coverage["exhaustive"] = True
+    out.assumptions = ["zoneinfo (system tzdata) is the oracle for offsets; instants are kept days away from switch hours (the ambiguous / skipped local hour is not generated)",
+                       "the clock shim replaces the datetime / time names of ascmhl.utils, ascmhl.hashlist, ascmhl.history and ascmhl.commands; code reading the clock through another path would see the real time"] + COMMON_ASSUMPTIONS[1:2]
+    return out
+
+
+@register("C01")
+def c01(tier, seed):
+    """digests: MhlHasher loop model + recorded read/update events of the real code + one-shot oracle + C4 codec values"""
+    import itertools
+    import random
+    from multiprocessing import Pool
+    from . import hashcheck as HC
+    from . import validate
+
+    out = Outcome("C01", tier, seed, "model_checking")
+    run_static_model(out, "MhlHasher", cfg="MC_Hasher.cfg")
+    rnd = random.Random(seed)
+    lengths = HC.LENGTHS_QUICK if tier == "quick" else HC.LENGTHS_THOROUGH + [rnd.randint(1, 4 * HC.CHUNK) for _ in range(3)]
+    subsets = [list(c) for r in range(1, 7) for c in itertools.combinations(HC.CLI_FORMATS, r)]   # all 63
+    cases, k = [], 0
+    for n in lengths:
+        subs = subsets if tier == "thorough" else rnd.sample(subsets, 12) + [HC.CLI_FORMATS]
+        for fm in subs:
+            cases.append((k, n, fm, "aggregate", seed)); k += 1
+        for f in HC.CLI_FORMATS + ["xxh32"]:
+            for ep in ("hash_file", "class_hash_file", "hash_data"):
+                cases.append((k, n, [f], ep, seed)); k += 1
+        cases.append((k, n, ["sha1", "xxh3", "xxh32"], "multi_data", seed)); k += 1
+        for f in HC.CLI_FORMATS:
+            cases.append((k, n, [f], "cli_hash", seed)); k += 1
+        for fm in (rnd.sample(subsets, 4) if tier == "quick" else rnd.sample(subsets, 16)):
+            cases.append((k, n, fm, "create", seed)); k += 1
+            cases.append((k, n, fm, "verify", seed)); k += 1
+    with Pool(16) as pool:
+        lines = pool.map(HC.run_case, cases, chunksize=8)
+    verdicts, diags = validate.validate(lines, [], trace_module="MhlHasherTrace", tag="C01")
+    for d in diags[:3]:
+        out.machinery.append("trace validation stopped early: %s" % d["tail"][-1500:])
+    counts, drift, nontrivial = collections.Counter(), collections.Counter(), set()
+    for ln in lines:
+        v = verdicts.get((ln["tid"], ln["i"]))
+        if not v:
+            continue
+        nontrivial.add((ln["len"], tuple(ln["fmts"]), ln["ep"]))
+        counts["P_C01_Digest"] += 1
+        if v.get("M_loop") is False:
+            drift["M_loop"] += 1
+        if v.get("P_C01_Digest") is False:
+            out.violation("P_C01_Digest", "len=%d formats=%s entry=%s %s got/want=%s" % (ln["len"], ln["fmts"], ln["ep"], ln["note"], ln["diff"]),
+                          {"kind": "hash", "len": ln["len"], "fmts": ln["fmts"], "ep": ln["ep"], "k": int(ln["tid"].split("-")[1]), "seed": seed}, 0)
+    # C4 codec on boundary values
+    vals = HC.codec_values(seed, extra=200 if tier == "quick" else 5000)
+    nbad = 0
+    for v in vals:
+        r = HC.codec_case(v)
+        counts["P_C01_C4Codec"] += 1
+        if not (r["enc_ok"] and r["dec_ok"] and r["len_ok"]):
+            nbad += 1
+            out.violation("P_C01_C4Codec", "value with %d bits -> %s (encode ok=%s, decode ok=%s, 90 chars=%s)" % (r["v_bits"], r["text"], r["enc_ok"], r["dec_ok"], r["len_ok"]),
+                          {"kind": "codec", "value_hex": "%x" % v}, 0)
+    out.coverage["evaluations"] = len(verdicts) + len(vals)
+    out.coverage["traces_validated_against_impl"] = len(lines)
+    out.coverage["distinct_nontrivial"] = len(nontrivial)
+    out.coverage["clause_evaluations"] = dict(counts)
+    out.coverage["drift"] = dict(drift)
+    out.coverage["samples"] = [{k_: ln[k_] for k_ in ("len", "fmts", "ep", "events")} for ln in lines[:2]]
+    out.coverage["rule"] = (
+        "MhlHasher.tla: all file lengths 0..13 at chunk size 4 x all non-empty subsets of 3 hashers x 3 entry points, invariant 'every hasher was fed "
+        "exactly the file' and termination; codec assumptions (fixed width, round trip, injective, order preserving) at radix 3 width 4, exhaustive. "
+        "Real code: file lengths {0, 1, 2^20-1, 2^20, 2^20+1, 2*2^20+7, ...} x format subsets (all 63 in the thorough tier) x entry points {hash_file, "
+        "Hasher.hash_file, AggregateHasher.hash_file, hash_data, multiple_format_hash_data, CLI hash, create, verify (+ verify after a one-byte flip "
+        "must exit 11)}; every fd.read and every hasher update is recorded through harness-side wrappers and MhlHasherTrace checks the sequence is "
+        "a behaviour of the loop; every digest string is compared with one-shot hashlib / xxhash over the same bytes and an independent base-58 "
+        "codec. C4 codec: 0, 1, 57, 58, 58^k-1, 58^k, 58^k+1 (k < 88), 2^511, 2^512-1 and seeded random values injected as the SHA-512 value. "
+        "distinct_nontrivial = distinct (length, format subset, entry point)."
+    )
+    out.assumptions = ["the arithmetic of MD5, SHA-1, SHA-512, XXH32/64/3 is trusted library code (hashlib, xxhash), anchored by published vectors in harness/oracle.py",
+                       "TLC integers are 32 bit: the C4 codec is model checked at radix 3 / width 4; the 512-bit boundary values are differential tests, not model checking"] + COMMON_ASSUMPTIONS[1:2]
+    return out
+
+
+@register("C20")
+def c20(tier, seed):
+    """update check: MhlUpdater (all interleavings, liveness under fairness of main only) + every schedule forced on the real CLI groups"""
+    from multiprocessing import Pool
+    from . import updatecheck as UC
+    from . import validate
+
+    out = Outcome("C20", tier, seed, "model_checking")
+    run_static_model(out, "MhlUpdater", cfg="MC_Updater.cfg")
+    cases, k = [], 0
+    for g in ("ascmhl", "ascmhl-debug"):
+        for s in UC.SERVERS:
+            for vv in (list(UC.VERSIONS) if s == "ok" else ["newer"]):
+                for tm in (list(UC.TIMINGS) if s != "hang" else ["before"]):
+                    for c in (("ok", "fail30", "fail11") if g == "ascmhl" else ("ok", "fail30")):
+                        if tier == "quick" and c != "ok" and tm == "during_join" and s not in ("ok", "hang"):
+                            continue
+                        cases.append((k, g, s, vv, tm, c))
+                        k += 1
+    with Pool(16) as pool:
+        lines = pool.map(UC.run_case, cases, chunksize=2)
+        sub = pool.map(UC.subprocess_case, [(i, m) for i, m in enumerate(["hang", "0.0", "2.5"] if tier == "quick" else ["hang", "hang", "0.0", "0.4", "1.6", "2.5"])])
+    lines += sub
+    verdicts, diags = validate.validate(lines, [], trace_module="MhlUpdaterTrace", tag="C20")
+    for d in diags[:3]:
+        out.machinery.append("trace validation stopped early: %s" % d["tail"][-1500:])
+    counts, drift, nontrivial = collections.Counter(), collections.Counter(), set()
+    for ln in lines:
+        v = verdicts.get((ln["tid"], ln["i"]))
+        if not v:
+            continue
+        nontrivial.add((ln["group"], ln["server"], ln["version"], ln["timing"], ln["cmd"]))
+        if v.get("M_notice") is False:
+            drift["M_notice"] += 1
+        for c in ("P_C20_ExitCode", "P_C20_Stdout", "P_C20_NoticeOnlyIfNewer", "P_C20_BoundedDelay"):
+            counts[c] += 1
+            if v.get(c) is False:
+                out.violation(c, "group=%s server=%s version=%s timing=%s command=%s -> exit %s (command alone %s) stdout_same=%s notice=%s elapsed=%sms %s" % (
+                    ln["group"], ln["server"], ln["version"], ln["timing"], ln["cmd"], ln["exit"], ln["ref_exit"], ln["stdout_same"], ln["notice"], ln["elapsed_ms"], ln["exc"]),
+                    {"kind": "update", "group": ln["group"], "server": ln["server"], "version": ln["version"], "timing": ln["timing"], "cmd": ln["cmd"]}, 0)
+    out.coverage["evaluations"] = len(verdicts)
+    out.coverage["traces_validated_against_impl"] = len(lines)
+    out.coverage["distinct_nontrivial"] = len(nontrivial)
+    out.coverage["clause_evaluations"] = dict(counts)
+    out.coverage["drift"] = dict(drift)
+    out.coverage["samples"] = [{k_: ln[k_] for k_ in ("group", "server", "version", "timing", "cmd", "exit", "notice", "elapsed_ms")} for ln in lines[:3]]
+    out.coverage["rule"] = (
+        "MhlUpdater.tla: checker thread x main thread, all interleavings for 8 server behaviours x 7 version classes x 3 command exit codes; invariants "
+        "(exit code, stdout, notice only for a newer stable version, at most one timer period of delay) and termination under weak fairness of the main "
+        "thread only (the checker may hang forever). Real code: requests.get is stubbed and each schedule is forced with sleeps (answer before the "
+        "command ends, 0.35 s into the join, 1.7 s i.e. after the time-out, never) through both CLI groups (ascmhl: info / failing create / info "
+        "without history; ascmhl-debug: verify), each compared with the bare command on an identical tree; plus real sub-processes (hanging and late "
+        "servers) whose wall-clock is measured. distinct_nontrivial = distinct (group, server, version class, timing, command)."
+    )
+    out.coverage["exhaustive"] = True
+    out.assumptions = ["timing bounds are wall-clock measurements with 0.9 s slack on a loaded 16-core sandbox", "stderr (where a dying worker thread's traceback goes) is not part of the statement"] + COMMON_ASSUMPTIONS[1:2]
+    return out
